@@ -738,6 +738,10 @@ class ObjectMethod(DeserializationMethod):
             validators = [
                 v for v in self.validators if not v.dependencies.isdisjoint(aliases)
             ]
+            # validators given for this position (`validators=` argument, field or
+            # Annotated metadata) are not methods of the class: they have no
+            # dependency on its fields and are run on the deserialized object
+            external = [v for v in self.validators if not hasattr(v, "owner")]
             if field_errors or errors:
                 error = ValidationError(errors or [], field_errors or {})
                 invalid_fields = self.post_init_modified
@@ -758,7 +762,8 @@ class ObjectMethod(DeserializationMethod):
                     error = merge_errors(error, err)
                 raise error
             obj = self.constructor.construct(values)
-            return validate(obj, validators, init, aliaser=self.aliaser)
+            obj = validate(obj, validators, init, aliaser=self.aliaser)
+            return validate(obj, external, aliaser=self.aliaser) if external else obj
         elif field_errors or errors:
             raise ValidationError(errors or [], field_errors or {})
         return self.constructor.construct(values)
